@@ -116,7 +116,7 @@ impl Check for C06 {
         "C06"
     }
     fn cases(&self, tier: Tier) -> u64 {
-        tier.pick(2400, 150_000)
+        tier.pick(3600, 150_000)
     }
     fn rule(&self) -> String {
         "case = a seeded multi-replica history, then one failing call on a victim replica that may hold a pending queue (related and unrelated held-back changes) and conflicts: (0) apply_changes with a change whose (actor, seq) is already applied with another hash (built by a twin replica with the same actor) alone / inside a batch with good changes; (1) load_incremental of a valid change chunk with a flipped byte, truncated, or a good chunk followed by a bad one; (2) an invalid transaction operation (unknown object, wrong key kind, out-of-range index, increment of a non-counter, mark end out of range) inside an open transaction, in a third of the cases a transaction scoped to older heads (isolate); (3) merge with a document that holds a conflicting seq. Whenever the call returns Err: heads, applied set, OBS snapshot, pending queue, missing deps, pending_ops and H3 must equal the capture before; the same continuation (4 edits + commit + later delivery of the queue's missing dependency) on the document and on a clone taken before must give the same change hash, heads and state; the document after the failed call and a reload of it must treat the next genuine change of the rejected change's actor identically; and after every case load(save()) must succeed and equal the document. Non-trivial = the failing call happened with a non-empty queue or an open transaction; distinct by (failure kind, pre-state class, error text).".into()
@@ -243,10 +243,10 @@ impl Check for C06 {
                             cx.nontrivial(fnv(format!("{kind}{shape}q{e}").as_bytes()) ^ before.queued.len() as u64);
                         }
                         let detail = json!({"kind": kname, "batch_shape": shape, "queue_before": before.queued.len(), "conflicting": {"actor": c.actor_id().to_hex_string(), "seq": c.seq()}, "log": tail(&log, 25)});
-                        if !unchanged(cx, kname, &before, &mut victim, &e, &[f.hash()], detail.clone()) {
-                            return;
-                        }
-                        if !same_future(cx, kname, &mut victim, &mut before_clone, &gs, cont_seed, &later, detail.clone()) {
+                        // (a reported difference — possibly a known finding — does not end the case: the
+                        // reload differential below looks at something else)
+                        let same = unchanged(cx, kname, &before, &mut victim, &e, &[f.hash()], detail.clone());
+                        if same && !same_future(cx, kname, &mut victim, &mut before_clone, &gs, cont_seed, &later, detail.clone()) {
                             return;
                         }
                         // the document after the failed call vs a reload of it: both must treat a later,
